@@ -19,6 +19,15 @@ Monitors (all on the real ``onnx_ir`` objects, through public API only):
 
 Out-of-domain cases (exact value needs a division by zero or an irrational/complex power) and
 cases too large to hand to SymPy are skipped and counted.
+
+Verdicts come only from the exact oracles above.  A failing case is then *named*: shrunk (deepest
+failing subtree, greedy hoisting) and classified - the printed text contains a function the
+parser does not know (``unparseable:<names>``); the library reads a text exactly as the
+documented productions read literally (``unary-minus-power``); SymPy itself returns the same wrong
+value for the faithful translation of the expression (``same-in-sympy:<root>``,
+``vfpy/c16_sympy_twin.py`` - attribution only); otherwise the operator skeleton of the minimal
+witness.  A single case that keeps SymPy busy for more than a few seconds is abandoned and counted
+(an interval timer bounds the run; it never produces a verdict).
 """
 
 from __future__ import annotations
@@ -254,7 +263,7 @@ def reparse_fails(dim, in_dom, stage, count) -> list[Fail]:
             r = again.evaluate(b)
         except Exception as exc:  # noqa: BLE001 - the statement says the text parses back
             count("printparse_unparseable")
-            out.append(Fail("print-parse", "unparseable", stage, text=text, exc=_exc(exc), binding=b))
+            out.append(Fail("print-parse", "unparseable", stage, text=text, exc=_exc(exc), binding=b, want=want))
             out[-1].got = exc
             break
         got = as_exact(r)
@@ -795,6 +804,9 @@ def _name_tree_failure(t, bindings, f, order_seed, via_shape):
         names = undocumented_functions(w.text or "")
         what = "+".join(names) if names else (_exc_class(w.got) if isinstance(w.got, BaseException) else "?")
         sig = f"print-parse|unparseable:{what}|root={small[0]}{stage}"
+        if not names and w.want is not None and explained_by_literal_grammar(w.text, [(w.binding, w.want)]):
+            # every function is known to the parser; it fails because it reads '-a**b' as '(-a)**b'
+            sig = f"print-parse|parser-misreads|unary-minus-power{stage}"
     elif w.kind == "print-parse" and w.cls == "value-changed":
         cls, mech, minimal = classify_printed_text(w.text, [(w.binding, w.want)])
         if cls != "parser-misreads":
@@ -983,6 +995,9 @@ def _name_string_failure(text, pytext, names, bindings, f):
         fn = undocumented_functions(f.text or "")
         what = "+".join(fn) if fn else (_exc_class(f.got) if isinstance(f.got, BaseException) else "?")
         sig = f"print-parse|unparseable:{what}|stage=parsed-then-printed"
+        if not fn and f.want is not None and explained_by_literal_grammar(f.text, [(f.binding, f.want)]):
+            # every function is known to the parser; it fails because it reads '-a**b' as '(-a)**b'
+            sig = "print-parse|parser-misreads|unary-minus-power|stage=parsed-then-printed"
     elif f.kind == "print-parse" and f.cls == "value-changed":
         cls, mech, minimal = classify_printed_text(f.text, [(f.binding, f.want)])
         sig = f"print-parse|{cls}|{mech or 'unclassified'}|stage=parsed-then-printed"
